@@ -258,8 +258,22 @@ macro_rules! flavour_impl {
                             drop(v);
                         }};
                     }
+                    macro_rules! drive_fold {
+                        ($it:expr, $lst:expr) => {{
+                            $it.for_each(|e| {
+                                let (u, w, x) = (*e.0.key(), *e.1.key(), e.2);
+                                let ok = if $lst == "in" { self.exists_now("in", w, u, x) } else { self.exists_now($lst, u, w, x) };
+                                yields.push(json!([u, w, x, ok]));
+                                if n == at { sobs = self.run_script(&spec["script"]); }
+                                n += 1;
+                                if n > 24 { panic!("edge loop does not end"); }
+                            });
+                        }};
+                    }
                     sel!($kind, {
                         match kind {
+                            "fold_out" => drive_fold!(node.iter_out(), "out"),
+                            "fold_in" => drive_fold!(node.iter_in(), "in"),
                             "collect_out" => drive_collect!(node.iter_out(), "out"),
                             "collect_in" => drive_collect!(node.iter_in(), "in"),
                             "iter_out" => drive!(node.iter_out(), "out"),
@@ -269,6 +283,7 @@ macro_rules! flavour_impl {
                         }
                     }, {
                         match kind {
+                            "fold_adj" => drive_fold!(node.iter(), "adj"),
                             "collect_adj" => drive_collect!(node.iter(), "adj"),
                             "iter" => drive!(node.iter(), "adj"),
                             "into_iter" => drive!(node.into_iter(), "adj"),
